@@ -116,6 +116,20 @@ func c20One(c *run.C) {
 		vals = append(vals, v)
 		streams = append(streams, em.out)
 	}
+	// re-enabling schedule: -1 = leave the cache alone before document d
+	reenable := make([]int, ndocs)
+	nre := 0
+	for d := range reenable {
+		reenable[d] = -1
+		if d > 0 && r.P(1, 5) {
+			if r.Bool() {
+				reenable[d] = capacity
+			} else {
+				reenable[d] = gen.Pick(r, c20Caps)
+			}
+			nre++
+		}
+	}
 	path := "direct"
 	var cd *codec.Codec
 	if r.P(1, 3) {
@@ -125,7 +139,7 @@ func c20One(c *run.C) {
 			return // invalid UTF-8 keys would be rewritten; the binary codecs keep the bytes
 		}
 	}
-	c.Begin(map[string]interface{}{"capacity": capacity, "type": t.String(), "keys": alphabet, "docs": ndocs, "path": path, "streams": streams})
+	c.Begin(map[string]interface{}{"capacity": capacity, "type": t.String(), "keys": alphabet, "docs": ndocs, "path": path, "reenable_before_doc": reenable, "streams": streams})
 
 	runAll := func(withCache bool) ([]reflect.Value, error, *lru, bool) {
 		u, err := gotype.NewUnfolder(nil)
@@ -142,6 +156,14 @@ func c20One(c *run.C) {
 		}
 		var out []reflect.Value
 		for d, s := range streams {
+			if withCache && d > 0 && reenable[d] >= 0 {
+				// enabling the cache again (same or another capacity) between documents
+				n := reenable[d]
+				if !c.Guard("EnableKeyCache-again", func() { u.EnableKeyCache(n) }) {
+					return nil, nil, nil, false
+				}
+				ref = &lru{cap: n, hits: ref.hits, misses: ref.misses, evictions: ref.evictions}
+			}
 			tgt := reflect.New(t)
 			var uerr error
 			ok = c.Guard(fmt.Sprintf("unfold.cache=%v", withCache), func() {
@@ -228,6 +250,7 @@ func c20One(c *run.C) {
 	c.Observe("cache_hits", ref.hits)
 	c.Observe("cache_misses", ref.misses)
 	c.Observe("cache_evictions", ref.evictions)
+	c.Observe("cache_reenabled", nre)
 	if len(alphabet) > capacity {
 		c.Observe("sequences_with_more_keys_than_capacity", 1)
 	}
@@ -298,7 +321,7 @@ func init() {
 	run.Register(&run.Check{
 		ID:    "C20",
 		Level: "exploration",
-		Rule: "sequences of 1..8 documents unfolded by ONE unfolder into map-typed targets (map[string]E, map[string]map[string]E, struct{M map[string]E; L []map[string]E}, []map[string]E for E in the 14 scalar kinds, interface{}, structs, pointers, slices, maps), " +
+		Rule: "sequences of 1..8 documents unfolded by ONE unfolder (EnableKeyCache called again with the same or another capacity before a fifth of the later documents) into map-typed targets (map[string]E, map[string]map[string]E, struct{M map[string]E; L []map[string]E}, []map[string]E for E in the 14 scalar kinds, interface{}, structs, pointers, slices, maps), " +
 			"object keys drawn from an alphabet of 2..12 keys (empty, one letter, shared long prefixes, non-ASCII, arbitrary bytes) so that capacities {0,1,2,3,5,8,64} see hits, misses, evictions and re-insertions after eviction; " +
 			"every key is delivered by reference from a buffer that is overwritten as soon as the callback returns (directly, or through the ubjson/cborl parser fed with scribbled chunks). " +
 			"Oracle: each document's target with EnableKeyCache(n) == the target of an identical run without cache == the document's value (all earlier targets are re-read at the end, so a cached key whose bytes were overwritten would show). " +
